@@ -22,6 +22,7 @@ ExcSet = frozenset  # of class names, or {ANY}
 
 _EXTRA_HIERARCHY = {
     "CancelledError": "BaseException",
+    "FuturesCancelledError": "Exception",  # concurrent.futures.CancelledError (normalize.distinguish_cancelled_errors)
     "MissingContext": "Exception",
     "MissingState": "Exception",
     "InvalidStateError": "Exception",
